@@ -1152,6 +1152,30 @@ def pred_summary(cb):
         site = (bb, idx)
         facts = set(cb.facts_at(site))
         if kind == "assign":
+            # `!matches!(x, ..)` / `a && b` as a value: the returned bool is (the negation of) a flag set on several arms
+            arms = None
+            rv = pl
+            if rv["k"] == "use":
+                arms = cb.bool_arms(rv["op"], site)
+            elif rv["k"] == "unop" and rv["op"] == "Not":
+                arms = cb.bool_arms(rv["x"], site, neg=True)
+            if arms is not None:
+                for dsite, cval, arv, neg in arms:
+                    afacts = set(cb.facts_at(dsite)) | facts
+                    if cval is not None:
+                        if cval:
+                            out.append(frozenset(afacts))
+                    elif arv is not None:
+                        f = norm_cond(cb.expr_rvalue(arv, dsite), not neg)
+                        if f[0] == "const":
+                            if f[1]:
+                                out.append(frozenset(afacts))
+                        else:
+                            afacts.add(f)
+                            out.append(frozenset(afacts))
+                    else:
+                        out.append(frozenset(afacts | {("unknown", dsite)}))
+                continue
             e = cb.expr_rvalue(pl, site)
         else:
             e = cb.expr_call(pl, site)
